@@ -3,12 +3,15 @@ mod c01;
 mod c02;
 mod c04;
 mod voicegen;
+mod c17;
 mod c18;
 mod c20;
 mod spectral;
 mod vset;
 mod dur;
 mod eng;
+mod laws;
+mod engine;
 mod util;
 
 use util::die;
@@ -34,6 +37,15 @@ fn main() {
         "c18-run" => c18::run(&a[2], &a[3]),
         "c18-worker" => c18::worker(&a[2], n(3)),
         "spectral-run" => spectral::run(&a[2], &a[3]),
+        "engine-replay" => engine::replay(&a[2], &a[3], &a[4]),
+        "render" => {
+            let v: serde_json::Value = serde_json::from_str(&std::fs::read_to_string(&a[2]).unwrap()).unwrap();
+            std::fs::write(&a[3], voicegen::render(&v)).unwrap();
+        }
+        "laws-record" => laws::record(&a[2], n(3) as u64, n(4), &a[5], &a[6..]),
+        "label-oracle" => c17::oracle(&a[2], &a[3]),
+        "c17-replay" => c17::replay(&a[2], &a[3], &a[4]),
+        "c17-record" => c17::record(n(2) as u64, n(3), &a[4], &a[5]),
         "c20-replay" => c20::replay(&a[2], &a[3]),
         other => die(&format!("unknown command {}", other)),
     }
